@@ -583,6 +583,13 @@ def tracker_params(spec):
         groups = [[0]]
     co = list(classes)
     if r.random() < 0.5: co = co[::-1]
+    r2 = random.Random(spec['seed'] * 11 + 3)   # own stream: the other parameters stay what they were
+    if n >= 2 and r2.random() < 0.35:
+        # groups need not cover the network: one node is left unobserved
+        big = max(range(len(groups)), key=lambda k: len(groups[k]))
+        if len(groups[big]) > 1:
+            groups = [list(g) for g in groups]
+            groups[big].pop(r2.randrange(len(groups[big])))
     return {'observed': observed, 'groups': groups, 'class_order': co}
 
 
